@@ -40,6 +40,6 @@ pub fn check() -> Check {
         "Funds behind a live proof cannot be withdrawn",
         "1-2 generated manifests per case, concentrated on one resource: interleavings of proof creation from buckets and account vaults (amount / ids / all), from the auth zone (amount / ids / all), clone, drop, push / pop, drop-all variants, with outflows from the same containers (withdraw, worktop take, burn, direct-vault recall, deposit of the locked bucket), amounts on and off the divisibility grid; in 40% of the manifests all proofs are finally dropped and a previously locked vault is withdrawn in full. Oracle: container model liquid + lock table (locked = max of live amounts / union of ids): an outflow of x succeeds iff x <= liquid and x is on the grid; dropping returns exactly the delta; final vault contents equal the model. Non-trivial = an outflow attempted on a container with >= 2 live locks.",
     )
-    .part(Part::new("proofs", 4000, 200_000, 700, case))
+    .part(Part::new("proofs", 5000, 200_000, 700, case))
     .min_nontrivial_pct(10.0)
 }
